@@ -165,6 +165,9 @@ class MergeConsecutiveOp(BaseOp):
             remove_groups (list): List of names of columns to remove.
 
         """
+        for column in ("onset", "duration"):
+            # Durations are computed arithmetically: text, n/a or integer columns are taken as floating point numbers.
+            df_new[column] = pd.to_numeric(df_new[column], errors="coerce").astype(float)
         remove_df = pd.DataFrame(remove_groups, columns=["remove"])
         max_groups = max(remove_groups)
         for index in range(max_groups):
